@@ -16,7 +16,7 @@ PID = "C18"
 LEVEL = "exploration"
 ENGINE = "hooksim"
 CHUNK = 16
-REACH = ['loaded_instrumented', 'loaded_plain', 'fault:crash', 'fault:pyc_write_fail', 'fault:pyc_lost_write', 'fault:pyc_torn_write', 'fault:pyc_deleted', 'fault:source_edit_landed_during_import', 'par:runs_with_preemption', 'edit:clock_back', 'op:reload', 'runs_with_dont_write_bytecode', 'import_failed_while_a_source_is_broken', 'pyc_tagged_seen', 'histories_cross_validated_with_real_processes']  # counters (prefixes) that a healthy batch makes non-zero; gaps are reported in the evidence
+REACH = ['runs_with_pycache_prefix', 'loaded_instrumented', 'loaded_plain', 'fault:crash', 'fault:pyc_write_fail', 'fault:pyc_lost_write', 'fault:pyc_torn_write', 'fault:pyc_deleted', 'fault:source_edit_landed_during_import', 'par:runs_with_preemption', 'edit:clock_back', 'op:reload', 'runs_with_dont_write_bytecode', 'import_failed_while_a_source_is_broken', 'pyc_tagged_seen', 'histories_cross_validated_with_real_processes']  # counters (prefixes) that a healthy batch makes non-zero; gaps are reported in the evidence
 BUDGET = {"quick": 40, "thorough": 600}
 RULE = (
     "Seeded histories of 2-6 simulated process runs over one real cache directory (real importlib, real "
